@@ -271,11 +271,13 @@ def compose(begin, mt, tokens, bad_checksum=False, no_trailer=False):
 
 
 def tokenize(s, data):
-    """Wire bytes -> [(tag bytes, value bytes)]; a LENGTH-typed field (other than BodyLength) followed by a
-    DATA-typed field gives the data field exactly that many bytes (the schema's pairing)."""
+    """Wire bytes -> [(tag bytes, value bytes)]; a Length field immediately followed by the data field the schema
+    pairs it with gives that data field exactly that many bytes."""
     out = []
     i, n = 0, len(data)
     want = None
+    want_for = None        # the data field the last Length field is paired with in the schema (only that one is cut by length)
+    pairmap = {a.number: b.number for a, b in s.length_pairs()}
     while i < n:
         eq = data.find(b"=", i)
         if eq < 0:
@@ -283,7 +285,7 @@ def tokenize(s, data):
             break
         tag = data[i:eq]
         tn = tagnum(tag)
-        if want is not None and tn is not None and ftype(s, tn) == "DATA" and eq + 1 + want < n and data[eq + 1 + want:eq + 2 + want] == SOH:
+        if want is not None and tn is not None and tn == want_for and eq + 1 + want < n and data[eq + 1 + want:eq + 2 + want] == SOH:
             val = data[eq + 1:eq + 1 + want]
             i = eq + 2 + want
         else:
@@ -295,8 +297,8 @@ def tokenize(s, data):
             i = end + 1
         out.append((tag, val))
         want = None
-        if tn is not None and tn != 9 and ftype(s, tn) == "LENGTH" and re.fullmatch(rb"\d{1,6}", val):
-            want = int(val)
+        if tn is not None and tn in pairmap and re.fullmatch(rb"\d{1,6}", val):
+            want, want_for = int(val), pairmap[tn]
     return out
 
 
